@@ -659,6 +659,106 @@ func runPreHandshakeStderr() (impl, pred string) {
 	return impl, "ok"
 }
 
+// slowWriter keeps everything and takes its time (a terminal, a log shipper)
+type slowWriter struct {
+	mu  sync.Mutex
+	buf bytes.Buffer
+}
+
+func (w *slowWriter) Write(p []byte) (int, error) {
+	time.Sleep(100 * time.Microsecond)
+	w.mu.Lock()
+	defer w.mu.Unlock()
+	return w.buf.Write(p)
+}
+
+// runLastWords: a real plugin process writes `lines` numbered lines to its stderr and exits; once the client reports
+// it as exited and Kill has returned, the configured Stderr writer must hold every line, unchanged and in order.
+func runLastWords(launch string, lines int) (impl, pred string) {
+	work := os.Getenv("VERIF_WORK")
+	base := fmt.Sprintf("%s/c10-lw-%d-%s", work, os.Getpid(), launch)
+	os.MkdirAll(base, 0o755)
+	defer os.RemoveAll(base)
+	w := &slowWriter{}
+	cmd := kitCmd(kitServeCfg{Sets: map[string]string{"3": "netrpc"}}, "TMPDIR="+base)
+	cfg := &plugin.ClientConfig{
+		HandshakeConfig:  kitHandshake(),
+		VersionedPlugins: kitHostSets(map[int]string{3: "netrpc"}, nil, nil),
+		Logger:           nullLogger(),
+		Stderr:           w,
+		StartTimeout:     5 * time.Second,
+		UnixSocketConfig: &plugin.UnixSocketConfig{TempDir: base},
+	}
+	if launch == "cmd" {
+		cfg.Cmd = cmd
+	} else {
+		cfg.RunnerFunc = func(l hclog.Logger, cm *exec.Cmd, tmpDir string) (runner.Runner, error) {
+			cmd.Env = append(cmd.Env, cm.Env...)
+			return newLcProcRunner(cmd)
+		}
+	}
+	client := plugin.NewClient(cfg)
+	defer func() {
+		withTimeout(8*time.Second, func() error { client.Kill(); return nil })
+		if cmd.Process != nil {
+			cmd.Process.Kill()
+		}
+	}()
+	cp, err := client.Client()
+	if err != nil {
+		return "setup-error", "FAIL:setup"
+	}
+	raw, err := cp.Dispense("kit")
+	if err != nil {
+		return "setup-error", "FAIL:setup-dispense"
+	}
+	go func() {
+		defer func() { recover() }()
+		raw.(Kit).Cmd("lastwords", lines)
+	}()
+	deadline := time.Now().Add(20 * time.Second)
+	for !client.Exited() && time.Now().Before(deadline) {
+		time.Sleep(20 * time.Millisecond)
+	}
+	if !client.Exited() {
+		return "not-exited", "FAIL:plugin-did-not-exit"
+	}
+	if _, hung, _ := withTimeout(8*time.Second, func() error { client.Kill(); return nil }); hung {
+		return "kill-hung", "FAIL:kill-hung"
+	}
+	var want bytes.Buffer
+	for i := 0; i < lines; i++ {
+		fmt.Fprintf(&want, "last words %06d %s\n", i, strings.Repeat("w", 70))
+	}
+	w.mu.Lock()
+	all := append([]byte(nil), w.buf.Bytes()...)
+	w.mu.Unlock()
+	// (the plugin's own logger writes a few JSON lines of its own to the same stderr: they are not part of the comparison)
+	var got []byte
+	for _, ln := range bytes.SplitAfter(all, []byte("\n")) {
+		if !bytes.HasPrefix(ln, []byte("{")) {
+			got = append(got, ln...)
+		}
+	}
+	impl = fmt.Sprintf("bytes=%d/%d", len(got), want.Len())
+	switch {
+	case bytes.Equal(got, want.Bytes()):
+		return impl, "ok"
+	case bytes.HasPrefix(want.Bytes(), got):
+		return impl, "FAIL:last-stderr-output-lost"
+	}
+	d := 0
+	for d < len(got) && d < want.Len() && got[d] == want.Bytes()[d] {
+		d++
+	}
+	e := d + 60
+	if e > len(got) {
+		e = len(got)
+	}
+	impl += fmt.Sprintf(" firstdiff=%d got=%q", d, got[d:e])
+	return impl, "FAIL:stderr-copy-altered"
+}
+
 // failingWriter fails per mode: always | once (the first Write only) | short (reports a short write without error)
 type failingWriter struct {
 	mode string
@@ -1169,6 +1269,11 @@ func hostC10(o *out, replay string) {
 	{
 		impl, pred := runPreHandshakeStderr()
 		o.emit("!C10.prehandshake lines=2048", impl, pred)
+	}
+	// the plugin's LAST words: more stderr than a pipe holds, written just before the process ends, a slow Stderr writer
+	for _, launch := range []string{"cmd", "runner"} {
+		impl, pred := runLastWords(launch, 1500)
+		o.emit("!C10.lastwords lines=1500 launch="+launch, impl, pred)
 	}
 	o.note("C10 input classes: %s", fmtCounts(cls))
 	o.note("C10 outcomes: %s", fmtCounts(outc))
